@@ -13,14 +13,24 @@ Implementation under test (real code, in-process, single-threaded):
      s2   after `producers_done_when_i_started` was read, before `launch_time` is read
      s3   while the task runs / inside a raising task generator
      s4   after the task, before the stop/retry bookkeeping
+Producers of the observer: the stub Job has a LIST of producer instances (one per data reference: several
+entries may stand for one component), each in the observer's stage or in an earlier one, repeating or not, each
+with its own output directory whose files appear by the scripted events `out:<component>` (or predate run():
+`pre`).  The real `Engine.canConsume` and the real `Job.producersHaveOutputSinceDate` (called on the stub) read
+them.  Ground truth for the oracle: at every launch, which same-stage producers had no file yet.
 Two kinds of cases:
   direct    the harness itself calls `notify_all_producers_finished` (event `fin`);
   composed  (`world` in the case) the notification is delivered by the real `ComponentState.stageIn`
             subscription: real `ComponentState` objects (real Jobs of an experiment built from generated FlowIR,
             real `producers` / `notifyFinished` / `_notifyProducersFinished`) for the observer - whose engine
             is the real RepeatingEngine above - and for every other component (fake engines of
-            harness/detsim.py); events `stagein`, `pf:k` (component k is finished by the controller:
-            FINISHED / FAILED / SHUTDOWN), `px:k` (engine of k exits resp. is restarted, k stays alive).
+            harness/detsim.py extended by the rest of the public observable surface of the real Engine:
+            notifyFinished / state / stateDictionary / emit_now, engine-level finished fires on EVERY task
+            exit); events `stagein`, `pf:k` (component k is finished by the controller: FINISHED / FAILED /
+            SHUTDOWN), `px:k` (engine of k exits resp. is restarted, k stays alive: exit -> restart -> final
+            exit histories).
+An exception that escapes from the real code while the harness drives it is an oracle failure of the case
+(`real-code-raises-<where>-<Exception>`), not a harness crash.
 Model: lean/St4sd/Model/Repeat.lean + RepeatSub.lean via drv-c13 (repaired behaviour: guardNone +
 killOnSuicidePoll).  Theorems: lean/St4sd/Props/C13.lean.  Witnesses: lean/St4sd/Witness/C13.lean.
 """
@@ -43,6 +53,78 @@ DEFAULT_RETRIES = 3
 
 class StopScript(BaseException):
     pass
+
+
+class RealCodeRaised(BaseException):
+    """the code under test raised while the harness was driving it (BaseException: passes through the
+    `except Exception` handlers of the monitor loop and of rx on its way out of the case)"""
+
+    def __init__(self, where, exc, tb):
+        BaseException.__init__(self, "%s: %s: %s" % (where, type(exc).__name__, exc))
+        self.where = where
+        self.exc_name = type(exc).__name__
+        self.message = str(exc)[:300]
+        self.tb = tb
+
+    def slug(self):
+        return "real-code-raises-%s-%s" % (self.where, self.exc_name)
+
+
+def real(where, fn, *a, **k):
+    """call into the code under test"""
+    try:
+        return fn(*a, **k)
+    except (StopScript, RealCodeRaised):
+        raise
+    except Exception as exc:
+        import traceback
+        raise RealCodeRaised(where, exc, traceback.format_exc()[-1800:])
+
+
+# ----------------------------------------------------------------------------------------
+# case format
+# ----------------------------------------------------------------------------------------
+# direct   cfg = {"retries", "dieAfter", "prods": [{"id", "same", "rep"}, ...], "pre": [component, ...]}
+# composed cfg = {"retries", "dieAfter", "rep": [component, ...], "pre": [component, ...]}; the producer list is
+#          one entry per reference of the world (same = the component is in the observer's stage)
+# events   "out:<component>" - the component writes a file into its working directory
+
+def prods_of(case):
+    cfg = case["cfg"]
+    w = case.get("world")
+    if w is None:
+        return [dict(p) for p in cfg.get("prods", [])]
+    rep = set(cfg.get("rep", []))
+    return [{"id": k, "same": w["comps"][k][0] == w["stage"], "rep": k in rep} for k, _suffix in w["refs"]]
+
+
+def normalise(case):
+    """cases written before the producer list existed (one same-stage producer: noProd / alwaysNew /
+    preOutput, event `out`) in today's format"""
+    cfg = case["cfg"]
+    old = any(k in cfg for k in ("noProd", "alwaysNew", "preOutput")) or \
+        ("world" not in case and "prods" not in cfg)
+    if not old:
+        return case
+    case = copy.deepcopy(case)
+    cfg = case["cfg"]
+    always, pre, nop = bool(cfg.pop("alwaysNew", False)), bool(cfg.pop("preOutput", False)), bool(cfg.pop("noProd", False))
+    w = case.get("world")
+    if w is None:
+        cfg["prods"] = [] if nop else [{"id": 0, "same": True, "rep": not always}]
+        cfg["pre"] = [0] if pre and not nop else []
+        target = 0
+    else:
+        ids = sorted({k for k, _s in w["refs"]})
+        cfg["rep"] = [] if always else ids
+        cfg["pre"] = ids if pre else []
+        same = [k for k in ids if w["comps"][k][0] == w["stage"]]
+        target = (same or ids or [0])[0]
+    for it in case["iters"]:
+        for sl in SLOTS:
+            if sl in it:
+                it[sl] = ["out:%d" % target if e == "out" else e for e in it[sl]]
+    return case
 
 
 class Clock:
@@ -153,6 +235,52 @@ def expected_producers(world):
     return [k for k, _suffix in world["refs"]]
 
 
+def producer_engine_class(env):
+    """fake engine of a producer component: detsim's FakeEngine plus the rest of the public observable surface of
+    the real Engine that workflow.py / control.py may subscribe to, with the real semantics: `stateUpdates` emits
+    `isAlive: False` on EVERY task exit (also one the controller answers with a restart) and completes after
+    shutdown(); `notifyFinished` is `stateUpdates | first_or_default(isAlive is False, ({}, self))`."""
+    if "C13ProducerEngine" in env:
+        return env["C13ProducerEngine"]
+    import reactivex.operators as op
+
+    class ProducerEngine(env["FakeEngine"]):
+        @property
+        def state(self):
+            return self._su
+
+        @property
+        def notifyFinished(self):
+            return self.stateUpdates.pipe(
+                op.first_or_default(lambda x: x[0].get("isAlive") is False, ({}, self)))
+
+        @property
+        def stateDictionary(self):
+            return {"sourceType": "engine", "reference": self.job.reference, "isAlive": self.isAlive(),
+                    "isShutdown": self.isShutdown, "engineExitReason": self.exitReason(),
+                    "engineExitCode": self.returncode(), "backend": "simulator"}
+
+        def emit_now(self, what=None):
+            self._su.on_next((dict(what or {}), self))
+
+        def shutdown(self):
+            env["FakeEngine"].shutdown(self)
+            self._su.on_completed()          # "completes after the last update after the engine is killed"
+
+        @property
+        def consume(self):
+            return True
+
+        def canConsume(self, delay=0, force=False):
+            return True
+
+        lastLaunched = None
+        taskGenerator = None
+        cancelMonitorEvent = None
+    env["C13ProducerEngine"] = ProducerEngine
+    return ProducerEngine
+
+
 class Drv:
     """Runs one scripted case on the real RepeatingEngine."""
 
@@ -160,10 +288,14 @@ class Drv:
         self.case = case
         self.cfg = case["cfg"]
         self.clock = Clock()
-        self.lastOut = None
+        self.prods = prods_of(case)     # the observer's producer instances (one per data reference)
+        self.prod_ids = {p["id"] for p in self.prods}
+        self.out_time = {}      # component -> time of its newest file
+        self.first_out = {}     # component -> time of its first file
+        self.lastOut = None     # time of the newest file of all producers
         self.anyOut = False
         self.timers = []
-        self.launches = []      # [time, outcome, output_available, task]
+        self.launches = []      # [time, outcome, same-stage producers without output at launch, task]
         self.trace = []
         self.task = None
         self.it = None
@@ -204,8 +336,10 @@ class Drv:
         obs_ref = "stage%d.%s" % (self.world["stage"], OBS)
         prev = E.Engine.__dict__["engineForComponentSpecification"]
 
+        PE = producer_engine_class(env)
+
         def make(cls, job):
-            return d.eng if job.reference == obs_ref else env["FakeEngine"](job)
+            return d.eng if job.reference == obs_ref else PE(job)
         E.Engine.engineForComponentSpecification = classmethod(make)
         import reactivex
         import reactivex.subject
@@ -222,7 +356,7 @@ class Drv:
                 data = exp.graph.nodes[ref]
                 stage = exp._stages[data["stageIndex"]]
                 job = stage.jobWithName(data["componentSpecification"].identification.componentName)
-                byref[ref] = W.ComponentState(job, exp.experimentGraph, create_engine=True)
+                byref[ref] = real("ComponentState", W.ComponentState, job, exp.experimentGraph, create_engine=True)
                 # ComponentState.__init__ makes exactly one reactivex.interval (the 5 s state poll)
                 ticks[ref] = made[-1]
         finally:
@@ -239,8 +373,8 @@ class Drv:
             c.engine.started = True
             # the Controller observes the state of every component from the start (this connects the
             # published state stream, as in the running system)
-            c.stateUpdates.subscribe(on_next=lambda x: None, on_error=lambda x: None)
-        self.producers_seen = [p.specification.reference for p in self.obs.producers]
+            real("stateUpdates", lambda c=c: c.stateUpdates.subscribe(on_next=lambda x: None, on_error=lambda x: None))
+        self.producers_seen = real("producers", lambda: [p.specification.reference for p in self.obs.producers])
 
     def finish_component(self, k):
         """what the controller does to a component that is over: FINISHED / FAILED after its engine exited, or
@@ -253,17 +387,18 @@ class Drv:
         kind = self.world["comps"][k][2]
         if kind == "shutdown":
             running = e.isAlive()
-            c.finish(codes.SHUTDOWN_STATE)
+            real("finish", c.finish, codes.SHUTDOWN_STATE)
             if running:
-                e.die(codes.exitReasons["Killed"])
+                real("engine-exit", e.die, codes.exitReasons["Killed"])
         else:
             if e.isAlive():
-                e.die(codes.exitReasons["Success" if kind == "ok" else "KnownIssue"])
-            c.finish(codes.FINISHED_STATE if kind == "ok" else codes.FAILED_STATE)
-        if c.isAlive():
+                real("engine-exit", e.die, codes.exitReasons["Success" if kind == "ok" else "KnownIssue"])
+            real("finish", c.finish, codes.FINISHED_STATE if kind == "ok" else codes.FAILED_STATE)
+        if real("finish", c.isAlive):
             raise RuntimeError("stand-in controller could not finish %s" % comp_ref(self.world, k))
         self.finished.add(k)
-        self.ticks[k].on_next(0)     # the next 5 s state poll of the component: its state stream completes
+        # the next 5 s state poll of the component: its state stream completes
+        real("state-poll", self.ticks[k].on_next, 0)
 
     def toggle_engine(self, k):
         """the engine of a component exits (component goes to postmortem, stays alive) resp. is restarted"""
@@ -272,42 +407,64 @@ class Drv:
             return
         e = self.comps[k].engine
         if e.isAlive():
-            e.die(codes.exitReasons["KnownIssue"])
+            # a restartable exit: every subscriber of the engine's streams sees `isAlive: False`
+            real("engine-exit", e.die, codes.exitReasons["KnownIssue"])
         else:
+            # the controller restarts the component: same engine object, alive again
             e._exit = None
-            e.stateUpdates.on_next(({"isAlive": True}, e))
-        if not self.comps[k].isAlive():
+            real("engine-restart", e.stateUpdates.on_next, ({"isAlive": True}, e))
+        if not real("engine-exit", self.comps[k].isAlive):
             raise RuntimeError("engine exit made %s not alive" % comp_ref(self.world, k))
 
     # -- stubs ---------------------------------------------------------------------------
     def make_job(self):
         d = self
 
+        import experiment.model.data as D
+
         class WD:
             path = "/nonexistent-c13/wd"
             directory = "/nonexistent-c13/wd"
 
         class PWD:
-            path = "/nonexistent-c13/p"
+            """working directory of a producer: `output`, `outputSinceDate`, `outputBeforeDate` as
+            storage.WorkingDirectory (one file per component, mtime = time of the last `out` event, ctime = time
+            of the first one)"""
+
+            def __init__(self_, cid):
+                self_.cid = cid
+                self_.path = self_.directory = "/nonexistent-c13/p%d" % cid
 
             @property
             def output(self_):
-                return ["f"] if d.anyOut else []
+                return [self_.path + "/f"] if self_.cid in d.out_time else []
+
+            def outputSinceDate(self_, date):
+                return [f for f in self_.output if d.out_time[self_.cid] > date]
+
+            def outputBeforeDate(self_, date):
+                return [f for f in self_.output if d.first_out[self_.cid] < date]
+
+        stage = 1 if d.world is None else d.world["stage"]
 
         class Prod:
-            stageIndex = 0
-            isRepeat = not d.cfg.get("alwaysNew")
-            identification = "stage0.P"
-            workingDirectory = PWD()
+            def __init__(self_, p):
+                self_.stageIndex = stage if p["same"] else stage - 1
+                self_.isRepeat = bool(p["rep"])
+                self_.identification = self_.reference = "stage%d.P%d" % (self_.stageIndex, p["id"])
+                self_.name = "P%d" % p["id"]
+                self_.workingDirectory = dirs.setdefault(p["id"], PWD(p["id"]))
 
+        dirs = {}
+        instances = [Prod(p) for p in d.prods]
         retries = d.cfg.get("retries")
 
         class Job:
-            reference = "stage0.Obs"
-            identification = "stage0.Obs"
+            reference = "stage%d.Obs" % stage
+            identification = "stage%d.Obs" % stage
             type = "local"
             isRepeat = True
-            stageIndex = 0
+            stageIndex = stage
             name = "Obs"
             executable = "x"
             arguments = ""
@@ -318,28 +475,38 @@ class Drv:
 
             @property
             def producerInstances(self_):
-                return [] if d.cfg.get("noProd") else [Prod()]
+                return list(instances)
 
             def repeatInterval(self_):
                 return 30.0
 
             def producersHaveOutputSinceDate(self_, date):
-                # same decision as Job.producersHaveOutputSinceDate with one producer whose newest file
-                # has mtime d.lastOut (a non-repeating producer always counts as having new output)
+                # the real Job.producersHaveOutputSinceDate on the stub (it reads producerInstances, isRepeat
+                # and workingDirectory.outputSinceDate only)
                 d.seen.add("check")
-                r = False
-                for p in self_.producerInstances:
-                    if p.isRepeat is False or (d.lastOut is not None and d.lastOut > date):
-                        r = True
-                d.fire("s1")
-                return r
+                try:
+                    return D.Job.producersHaveOutputSinceDate(self_, date)
+                finally:
+                    d.fire("s1")
         return Job()
+
+    def partial_output(self):
+        """some same-stage producers have output, others not (and is the last-listed one among those that have)"""
+        same = [p["id"] for p in self.prods if p["same"]]
+        have = [k for k in same if k in self.out_time]
+        if not have or len(have) == len(same):
+            return None
+        return "last-has" if same[-1] in have else "last-has-not"
+
+    def missing_now(self):
+        """ground truth: the same-stage producer instances that have no output at this moment"""
+        return sorted({p["id"] for p in self.prods if p["same"] and p["id"] not in self.out_time})
 
     def gen(self, job, outputFile=None, errorFile=None):
         d = self
         self.seen.add("gen")
         out = self.it.get("outcome", "ok")
-        rec = [self.eng.lastLaunched, out, bool(self.cfg.get("noProd")) or self.anyOut, None]
+        rec = [self.eng.lastLaunched, out, self.missing_now(), None]
         self.launches.append(rec)
         if out == "raise":
             self.fire("s3")
@@ -392,24 +559,23 @@ class Drv:
         try:
             if e == "fin":
                 self.truth_fin = True
-                self.eng.notify_all_producers_finished()
+                real("notify_all_producers_finished", self.eng.notify_all_producers_finished)
             elif e == "stagein":
                 self.staged = True
-                self.obs.stageIn(stageData=False)
+                real("stageIn", self.obs.stageIn, stageData=False)
             elif e.startswith("pf:"):
                 self.finish_component(int(e[3:]))
             elif e.startswith("px:"):
                 self.toggle_engine(int(e[3:]))
-            elif e == "out":
-                self.lastOut = self.clock.tick()
-                self.anyOut = True
+            elif e.startswith("out:"):
+                self.output(int(e[4:]))
             elif e == "kill":
                 self.kill_fired = True
-                self.eng.kill()
+                real("kill", self.eng.kill)
             elif e == "die":
                 if self.timers:
                     self.die_fired = True
-                    self.timers.pop(0).on_completed()
+                    real("kill-delay-timer", self.timers.pop(0).on_completed)
             elif e == "adv":
                 self.clock.tick(1000 * 1000)
             else:
@@ -423,6 +589,16 @@ class Drv:
             self.early = {"after_event": e, "events_so_far": len(self.trace)}
         if not before and self.eng.cancelMonitorEvent.is_set():
             self.cancel_cause = {"kill": "external", "die": "killDelay"}.get(e, "event:" + e)
+
+    def output(self, cid):
+        """component `cid` writes a file (of interest to the observer only if it is one of its producers)"""
+        if cid not in self.prod_ids:
+            return
+        t = self.clock.tick()
+        self.out_time[cid] = t
+        self.first_out.setdefault(cid, t)
+        self.lastOut = t
+        self.anyOut = True
 
     def fire(self, slot):
         it = self.it
@@ -463,7 +639,7 @@ class Drv:
     def snapshot(self):
         e = self.eng
         return {"launches": len(self.launches), "retries": e._stateDict["repeatRetries"],
-                "cancel": e.cancelMonitorEvent.is_set(), "alive": bool(e.isAlive()),
+                "cancel": e.cancelMonitorEvent.is_set(), "alive": bool(real("isAlive", e.isAlive)),
                 "kc": bool(e.kernelCompleted), "suicide": bool(e._suicide), "consume": bool(e._consume),
                 "fin": bool(e._producers_are_finished)}
 
@@ -520,7 +696,8 @@ class Drv:
                 d.fin_at_begin = bool(d.eng._producers_are_finished)
                 info = {"last": bool(last), "fin_at_begin": d.fin_at_begin, "truth_at_begin": d.truth(),
                         "suicide_at_begin": bool(d.eng._suicide),
-                        "cancel_at_begin": d.eng.cancelMonitorEvent.is_set(), "error": None}
+                        "cancel_at_begin": d.eng.cancelMonitorEvent.is_set(), "error": None,
+                        "partial": d.partial_output()}
                 nl = len(d.launches)
                 d.in_action = True
                 d.clock.hook = d.on_now
@@ -557,22 +734,23 @@ class Drv:
         prev_disable = logging.root.manager.disable
         logging.disable(logging.CRITICAL)
         try:
-            if self.cfg.get("preOutput"):
-                self.lastOut = self.clock.tick()
-                self.anyOut = True
-            self.eng = E.RepeatingEngine(self.make_job(), self.gen)
+            for cid in self.cfg.get("pre", []):
+                self.output(cid)
+            job = self.make_job()
+            self.eng = real("RepeatingEngine", E.RepeatingEngine, job, self.gen)
             if self.world is not None:
                 # the controller: components are created, earlier stages / quick producers are over,
                 # the observer is staged in, then run
                 self.make_components(E)
                 for e in self.case.get("pre", []):
                     self.ev(e)
-            self.eng._prime()            # what run() does first; the events of the first `gap` come after it
+            # what run() does first; the events of the first `gap` come after it
+            real("prime", self.eng._prime)
             if iters:
                 self.it = iters[0]
                 self.fire("gap")
             try:
-                self.eng.run()
+                real("run", self.eng.run)
                 self.monitor_exited = True
             except StopScript:
                 pass
@@ -582,10 +760,10 @@ class Drv:
             (E.datetime, reactivex.interval, reactivex.timer, M.CreateMonitor, M.threading, M.time,
              E.Engine.enginePoolScheduler, E.Engine.triggerPoolScheduler, E.Engine.taskPoolScheduler) = saved
         fo = self.lastOut
-        execs = [{"afterFinal": (fo is None or t > fo)} for t, _o, _a, _t in self.launches]
+        execs = [{"afterFinal": (fo is None or t > fo), "avail": not m} for t, _o, m, _t in self.launches]
         return {"snaps": self.snaps, "execs": execs, "stopped": self.monitor_exited, "final": self.snapshot(),
                 "info": self.info, "cause": self.cancel_cause,
-                "avail": [a for _t, _o, a, _k in self.launches], "any_output": self.anyOut,
+                "missing": [m for _t, _o, m, _k in self.launches], "any_output": self.anyOut,
                 "sublog": self.sublog, "early": self.early, "truth_end": self.truth(),
                 "flag_end": bool(self.eng._producers_are_finished), "producers": self.producers_seen}
 
@@ -600,10 +778,13 @@ def oracle(case, out):
     cfg = case["cfg"]
     retries = cfg.get("retries")
     retries = DEFAULT_RETRIES if retries is None else retries
-    # 1. never executes before there is producer output it can consume
-    for i, a in enumerate(out["avail"]):
-        if not a:
-            fails.append(("executed-before-consumable-output", {"launch": i}))
+    # 1. never executes before there is producer output it can consume: at the moment of a launch every producer
+    #    of the observer's own stage has written something (the harness's own record of the `out` events; producers
+    #    of earlier stages are over, whatever they left is what there is to consume)
+    for i, m in enumerate(out["missing"]):
+        if m:
+            fails.append(("executed-before-consumable-output",
+                          {"launch": i, "same_stage_producers_without_output": m}))
             break
     # 2. a stop decided by the engine itself (not an external kill, not the kill delay) comes only after ALL
     #    producers finished (the harness's own record: the `fin` event of a direct case; stage-in and the finish
@@ -656,12 +837,27 @@ def unfinished_producers(case, out):
 # generator
 # ----------------------------------------------------------------------------------------
 
+def gen_prods(rng):
+    """the observer's producer instances: 0-4 entries, same / earlier stage, repeating or not, now and then
+    two entries for one component"""
+    prods = []
+    for i in range(rng.choice([0, 1, 1, 1, 2, 2, 2, 3, 3, 4])):
+        if prods and rng.random() < 0.15:
+            prods.append(dict(rng.choice(prods)))             # another reference to the same component
+        else:
+            same = rng.random() < 0.75
+            prods.append({"id": i, "same": same, "rep": rng.random() < (0.8 if same else 0.3)})
+    return prods
+
+
 def gen_case(rng, tier):
+    prods = gen_prods(rng)
+    ids = sorted({p["id"] for p in prods})
+    same_ids = sorted({p["id"] for p in prods if p["same"]})
     cfg = {"retries": rng.choice([None, 0, 1, 1, 2, 3, 3, 5]),
            "dieAfter": rng.random() < 0.3,
-           "noProd": rng.random() < 0.1,
-           "alwaysNew": rng.random() < 0.25,
-           "preOutput": rng.random() < 0.2}
+           "prods": prods,
+           "pre": [k for k in ids if rng.random() < (0.15 if k in same_ids else 0.6)]}
     r = DEFAULT_RETRIES if cfg["retries"] is None else cfg["retries"]
     n = rng.randint(3, 9 if tier == "quick" else 16) + r
     iters = [{"outcome": rng.choices(["ok", "fail", "raise"], [5, 3, 2])[0]} for _ in range(n)]
@@ -679,19 +875,34 @@ def gen_case(rng, tier):
     if rng.random() < 0.9:
         hi = max(0, n - r - 3)
         fin_pos = place("fin", 0, rng.randint(0, hi))
-    # outputs strictly before the notification
-    for _ in range(rng.choice([0, 1, 1, 2, 3, 5])):
+    # outputs strictly before the notification; every same-stage producer starts writing at a moment of its
+    # own (staggered producers) or never writes at all
+    writers = [k for k in (same_ids or ids) if rng.random() < 0.85]
+    outs = []
+    for k in writers:
+        outs += ["out:%d" % k] * rng.choice([1, 1, 1, 2, 3])
+    if len(outs) > 1 and rng.random() < 0.5:
+        rng.shuffle(outs)             # else: one producer after the other
+    if rng.random() < 0.1:
+        outs.append("out:%d" % rng.randint(0, 5))           # some component, maybe no producer at all
+    positions = []
+    for _ in outs:
         if fin_pos is None:
-            place("out", 0, n - 1)
+            positions.append((rng.randint(0, n - 1), rng.randrange(len(SLOTS)), 1))
         else:
             i = rng.randint(0, fin_pos[0])
-            ss = [s for s in SLOTS if (i, SLOTS.index(s)) < fin_pos] if i == fin_pos[0] else list(SLOTS)
-            if rng.random() < 0.3 and i == fin_pos[0]:
-                # same slot, just before the notification
-                iters[i][SLOTS[fin_pos[1]]].insert(0, "out")
-            elif ss:
-                s = rng.choice(ss)
-                iters[i].setdefault(s, []).append("out")
+            if i == fin_pos[0]:
+                si = rng.randint(0, fin_pos[1])
+                positions.append((i, si, 0 if si == fin_pos[1] else 1))
+            else:
+                positions.append((i, rng.randrange(len(SLOTS)), 1))
+    positions.sort()
+    for e, (i, si, after) in zip(outs, positions):
+        lst = iters[i].setdefault(SLOTS[si], [])
+        if after:
+            lst.append(e)
+        else:
+            lst.insert(lst.index("fin"), e)          # same slot, just before the notification
     if cfg["dieAfter"] and fin_pos is not None and rng.random() < 0.7:
         i = rng.randint(fin_pos[0], min(n - 1, fin_pos[0] + 3))
         ss = [s for s in SLOTS if (i, SLOTS.index(s)) > fin_pos] if i == fin_pos[0] else list(SLOTS)
@@ -758,10 +969,7 @@ def gen_case_composed(rng, tier, worlds):
     comps = world["comps"]
     prods = sorted(set(expected_producers(world)))
     cfg = {"retries": rng.choice([None, 0, 1, 1, 2, 3, 3, 5]),
-           "dieAfter": rng.random() < 0.3,
-           "noProd": not prods,
-           "alwaysNew": bool(prods) and rng.random() < 0.25,
-           "preOutput": bool(prods) and rng.random() < 0.3}
+           "dieAfter": rng.random() < 0.3}
     r = DEFAULT_RETRIES if cfg["retries"] is None else cfg["retries"]
     n = rng.randint(3, 9 if tier == "quick" else 16) + r
     iters = [{"outcome": rng.choices(["ok", "fail", "raise"], [6, 3, 1])[0]} for _ in range(n)]
@@ -779,56 +987,56 @@ def gen_case_composed(rng, tier, worlds):
                 pre.append("px:%d" % k)        # its engine is gone at stage-in (postmortem; restarted later)
     rng.shuffle(pre)
     pre.append("stagein")
-    if prods and not any(k in later for k in prods):
-        # notified at stage-in: output can only predate run(); producers of earlier stages do not repeat
-        cfg["preOutput"] = rng.random() < 0.8
-        cfg["alwaysNew"] = rng.random() < 0.7
-    # afterwards: the others finish one after the other (or never), their engines exit / restart in between
+    live = [k for k in prods if k in later]
+    # producers that are over at stage-in do not repeat (mostly) and have left their output; live ones repeat
+    # (mostly) and some have written already
+    cfg["rep"] = [k for k in prods if rng.random() < (0.75 if k in live else 0.3)]
+    cfg["pre"] = [k for k in prods if rng.random() < (0.2 if k in live else 0.8)]
+    # afterwards every other component has its own history: output (producers), engine exits and restarts
+    # (exit -> restart -> more output -> final exit), in the end the controller finishes it (or never)
     never = [k for k in later if rng.random() < 0.15]
     hi = max(0, n - r - 3)
-    pos = {}
+    nslots = len(SLOTS)
     for k in later:
         if k in never:
-            continue
-        i = rng.randint(0, rng.randint(0, hi))
-        sl = rng.choice(SLOTS)
-        iters[i].setdefault(sl, []).append("pf:%d" % k)
-        pos[k] = (i, SLOTS.index(sl), len(iters[i][sl]) - 1)
-    for k in later:
-        for _ in range(rng.choice([0, 0, 1, 2])):
-            i = rng.randint(0, n - 1)
-            sl = rng.choice(SLOTS)
-            lst = iters[i].setdefault(sl, [])
-            lst.insert(rng.randint(0, len(lst)), "px:%d" % k)
-    live = [k for k in prods if k in later]
-    if live and all(k in pos for k in live):
-        # position of the finish that completes the set (positions inside a slot may have shifted: recompute)
-        def where(k):
-            for i, it in enumerate(iters):
-                for si, sl in enumerate(SLOTS):
-                    if "pf:%d" % k in it.get(sl, []):
-                        return (i, si, it[sl].index("pf:%d" % k))
-        fin_pos = max(where(k) for k in live)
+            end = (n - 1, nslots - 1)
+        else:
+            end = (rng.randint(0, rng.randint(0, hi)), rng.randrange(nslots))
+        evs = []
+        if k in live:
+            evs += ["out:%d" % k] * (0 if rng.random() < 0.12 else rng.choice([1, 1, 2, 3]))
+        elif rng.random() < 0.1:
+            evs.append("out:%d" % k)                          # output of a component that is no producer
+        evs += ["px:%d" % k] * rng.choice([0, 0, 1, 2])
+        rng.shuffle(evs)
+        if rng.random() < (0.3 if k in live else 0.1):
+            # the engine exits with a restartable reason, is restarted, the restarted task writes the real final
+            # output, then the final exit
+            alive = (evs.count("px:%d" % k) + pre.count("px:%d" % k)) % 2 == 0
+            evs += ([] if alive else ["px:%d" % k]) + ["px:%d" % k, "px:%d" % k] + \
+                (["out:%d" % k] if k in live else [])
+        if k not in never:
+            evs.append("pf:%d" % k)
+        where_ = sorted((rng.randint(0, end[0]), rng.randrange(nslots)) for _ in evs[:-1 if k not in never else None])
+        where_ = [w if w <= end else end for w in where_] + ([end] if k not in never else [])
+        floor = {}
+        for e, (i, si) in zip(evs, where_):
+            lst = iters[i].setdefault(SLOTS[si], [])
+            at = rng.randint(floor.get((i, si), 0), len(lst))       # after the previous event of this component
+            lst.insert(at, e)
+            floor[(i, si)] = at + 1
+
+    def where(e):
+        for i, it in enumerate(iters):
+            for si, sl in enumerate(SLOTS):
+                if e in it.get(sl, []):
+                    return (i, si, it[sl].index(e))
+    if live and all(k not in never for k in live):
+        fin_pos = max(where("pf:%d" % k) for k in live)         # the finish that completes the set
     elif live:
         fin_pos = None                 # some producer never finishes: never notified
     else:
         fin_pos = (-1, 0, 0)           # notified at stage-in
-    # outputs: only while some producer is still running
-    for _ in range(rng.choice([0, 1, 1, 2, 3, 5])):
-        if fin_pos is None:
-            i = rng.randint(0, n - 1)
-            iters[i].setdefault(rng.choice(SLOTS), []).append("out")
-        elif fin_pos[0] >= 0:
-            i = rng.randint(0, fin_pos[0])
-            if i == fin_pos[0]:
-                ss = [sl for si, sl in enumerate(SLOTS) if si < fin_pos[1]]
-                if rng.random() < 0.3 or not ss:
-                    iters[i][SLOTS[fin_pos[1]]].insert(0, "out")
-                    fin_pos = (fin_pos[0], fin_pos[1], fin_pos[2] + 1)
-                    continue
-            else:
-                ss = list(SLOTS)
-            iters[i].setdefault(rng.choice(ss), []).append("out")
     if cfg["dieAfter"] and fin_pos is not None and rng.random() < 0.7:
         lo = max(fin_pos[0], 0)
         i = rng.randint(lo, min(n - 1, lo + 3))
@@ -857,23 +1065,46 @@ def nontrivial(case, out):
             and any(s in INNER for s, _e in evs))
 
 
+P1 = [{"id": 0, "same": True, "rep": True}]          # one repeating producer in the observer's stage
+P1N = [{"id": 0, "same": True, "rep": False}]        # ... that does not repeat (always "new output")
+
 CORPUS = [
     # DESIGN section 8 #13: the task generator raises after the producers finished
-    {"cfg": {"retries": 3, "alwaysNew": True},
-     "iters": [{"s0": ["out"]}, {"gap": ["fin"], "outcome": "raise"}] + [{"outcome": "raise"}] * 7},
+    {"cfg": {"retries": 3, "prods": P1N, "pre": []},
+     "iters": [{"s0": ["out:0"]}, {"gap": ["fin"], "outcome": "raise"}] + [{"outcome": "raise"}] * 7},
     # kill delay fires between two polls after a launch
-    {"cfg": {"retries": 3, "dieAfter": True},
-     "iters": [{"s0": ["out"]}, {"gap": ["fin"]}, {"gap": ["die"]}, {}, {}, {}, {}, {}]},
+    {"cfg": {"retries": 3, "dieAfter": True, "prods": P1, "pre": []},
+     "iters": [{"s0": ["out:0"]}, {"gap": ["fin"]}, {"gap": ["die"]}, {}, {}, {}, {}, {}]},
     # notification lands between the output check and the producers-done sample
-    {"cfg": {"retries": 2}, "iters": [{"s0": ["out"]}, {"s1": ["out", "fin"]}, {}, {}, {}, {}]},
+    {"cfg": {"retries": 2, "prods": P1, "pre": []},
+     "iters": [{"s0": ["out:0"]}, {"s1": ["out:0", "fin"]}, {}, {}, {}, {}]},
     # kill delay fires while the task runs
-    {"cfg": {"retries": 1, "dieAfter": True}, "iters": [{"s0": ["out"]}, {"gap": ["out", "fin"], "s3": ["die"]}, {}, {}]},
+    {"cfg": {"retries": 1, "dieAfter": True, "prods": P1, "pre": []},
+     "iters": [{"s0": ["out:0"]}, {"gap": ["out:0", "fin"], "s3": ["die"]}, {}, {}]},
     # no producers at all
-    {"cfg": {"retries": 0, "noProd": True}, "iters": [{}, {"s2": ["fin"], "outcome": "fail"}, {"outcome": "fail"}, {}, {}]},
+    {"cfg": {"retries": 0, "prods": [], "pre": []},
+     "iters": [{}, {"s2": ["fin"], "outcome": "fail"}, {"outcome": "fail"}, {}, {}]},
     # external kill in the middle of a poll
-    {"cfg": {"retries": 3}, "iters": [{"s0": ["out"]}, {"gap": ["out"], "s3": ["kill"]}, {}, {}]},
+    {"cfg": {"retries": 3, "prods": P1, "pre": []},
+     "iters": [{"s0": ["out:0"]}, {"gap": ["out:0"], "s3": ["kill"]}, {}, {}]},
     # waited more than 20 s with finished producers
-    {"cfg": {"retries": 5, "preOutput": True}, "iters": [{"gap": ["fin"]}, {"gap": ["adv"]}, {}, {}]},
+    {"cfg": {"retries": 5, "prods": P1, "pre": [0]}, "iters": [{"gap": ["fin"]}, {"gap": ["adv"]}, {}, {}]},
+    # staggered producers: the one listed first is slow, one of an earlier stage in the middle, the one listed
+    # last writes first; nothing may be launched before the slow one has written
+    {"cfg": {"retries": 3, "pre": [2],
+             "prods": [{"id": 5, "same": True, "rep": True}, {"id": 2, "same": False, "rep": False},
+                       {"id": 7, "same": True, "rep": True}]},
+     "iters": [{"s0": ["out:7"]}, {"gap": ["out:7"]}, {"s3": ["out:7"]}, {"s0": ["out:5"]}, {"gap": ["out:7", "fin"]},
+               {}, {}, {}]},
+    # the same in the other order, the slow one never writes: never able to consume, stops when the retries are
+    # used up
+    {"cfg": {"retries": 1, "pre": [],
+             "prods": [{"id": 7, "same": True, "rep": False}, {"id": 5, "same": True, "rep": True},
+                       {"id": 7, "same": True, "rep": False}]},
+     "iters": [{"s0": ["out:7"]}, {"gap": ["out:7"]}, {"s1": ["fin"]}, {}, {}, {}]},
+    # producers of an earlier stage only: can consume from the start
+    {"cfg": {"retries": 2, "pre": [], "prods": [{"id": 0, "same": False, "rep": False}]},
+     "iters": [{}, {"gap": ["fin"]}, {}, {}, {}]},
 ]
 
 
@@ -882,24 +1113,39 @@ W_TWO_STAGES = {"comps": [[0, "simulation", "ok"], [1, "simulation", "ok"], [1, 
 W_DUPREFS = {"comps": [[0, "A", "ok"], [0, "B", "shutdown"]], "stage": 0,
              "refs": [[0, ":ref"], [1, "/out.txt:ref"], [0, "/data/x.dat:ref"], [0, ":output"]]}
 W_EARLIER_ONLY = {"comps": [[0, "A", "ok"], [1, "A", "ok"]], "stage": 1, "refs": [[0, ":output"]]}
+W_RESTART = {"comps": [[0, "A", "ok"], [0, "B", "ok"]], "stage": 0, "refs": [[0, ":ref"], [1, ":ref"]]}
 
 CORPUS_COMPOSED = [
     # producers of the same name in two stages, in both reference orders; the same-stage one finishes while the
     # observer's task runs
-    {"cfg": {"retries": 3}, "world": W_TWO_STAGES, "pre": ["pf:3", "pf:0", "stagein"],
-     "iters": [{"s0": ["out"]}, {}, {"gap": ["out"], "s3": ["pf:1"]}, {}, {}, {}]},
-    {"cfg": {"retries": 3}, "world": dict(W_TWO_STAGES, refs=[[0, ":ref"], [1, ":ref"]]),
+    {"cfg": {"retries": 3, "rep": [1], "pre": [0]}, "world": W_TWO_STAGES, "pre": ["pf:3", "pf:0", "stagein"],
+     "iters": [{"s0": ["out:1"]}, {}, {"gap": ["out:1"], "s3": ["pf:1"]}, {}, {}, {}]},
+    {"cfg": {"retries": 3, "rep": [1], "pre": [0]}, "world": dict(W_TWO_STAGES, refs=[[0, ":ref"], [1, ":ref"]]),
      "pre": ["pf:0", "pf:3", "stagein"],
-     "iters": [{"s0": ["out"]}, {"s1": ["pf:2"]}, {"gap": ["out"], "s2": ["pf:1"]}, {}, {}, {}]},
+     "iters": [{"s0": ["out:1"]}, {"s1": ["pf:2"]}, {"gap": ["out:1"], "s2": ["pf:1"]}, {}, {}, {}]},
     # several references to one producer, another producer shut down while running, engine exits and restarts
-    {"cfg": {"retries": 1}, "world": W_DUPREFS, "pre": ["stagein"],
-     "iters": [{"s0": ["out"]}, {"gap": ["px:0"], "s3": ["pf:1"]}, {"s0": ["px:0", "out"]}, {"s4": ["pf:0"]}, {}, {}, {}]},
+    {"cfg": {"retries": 1, "rep": [0, 1], "pre": []}, "world": W_DUPREFS, "pre": ["stagein"],
+     "iters": [{"s0": ["out:0", "out:1"]}, {"gap": ["px:0"], "s3": ["pf:1"]}, {"s0": ["px:0", "out:0"]},
+               {"s4": ["pf:0"]}, {}, {}, {}]},
     # every producer is over before stage-in: notified at stage-in
-    {"cfg": {"retries": 2, "preOutput": True, "alwaysNew": True}, "world": W_EARLIER_ONLY, "pre": ["pf:0", "stagein"],
+    {"cfg": {"retries": 2, "rep": [], "pre": [0]}, "world": W_EARLIER_ONLY, "pre": ["pf:0", "stagein"],
      "iters": [{}, {"s2": ["pf:1"]}, {}, {}, {}]},
     # a producer never finishes: the observer keeps going
-    {"cfg": {"retries": 0}, "world": W_DUPREFS, "pre": ["stagein"],
-     "iters": [{"s0": ["out"]}, {"gap": ["pf:0"]}, {"gap": ["out"]}, {}, {"gap": ["out"]}, {}]},
+    {"cfg": {"retries": 0, "rep": [0, 1], "pre": []}, "world": W_DUPREFS, "pre": ["stagein"],
+     "iters": [{"s0": ["out:0", "out:1"]}, {"gap": ["pf:0"]}, {"gap": ["out:1"]}, {}, {"gap": ["out:1"]}, {}]},
+    # exit -> restart -> final exit: the engine of producer A exits with a restartable reason while B is already
+    # finished, the controller restarts it, the restarted task writes the real final output, then A is finished
+    {"cfg": {"retries": 3, "rep": [0, 1], "pre": []}, "world": W_RESTART, "pre": ["stagein"],
+     "iters": [{"s0": ["out:0", "out:1"]}, {"gap": ["pf:1"]}, {"gap": ["out:0"], "s3": ["px:0"]}, {"gap": ["px:0"]},
+               {"s0": ["out:0"]}, {"gap": ["out:0", "pf:0"]}, {}, {}, {}]},
+    # the engine of the only live producer is gone at stage-in and restarted afterwards
+    {"cfg": {"retries": 2, "rep": [0, 1], "pre": [1]}, "world": W_RESTART, "pre": ["px:0", "pf:1", "stagein"],
+     "iters": [{"s0": ["px:0"]}, {"gap": ["out:0"]}, {"s3": ["px:0"]}, {"s1": ["px:0"], "s4": ["out:0"]},
+               {"gap": ["pf:0"]}, {}, {}, {}]},
+    # staggered same-stage producers: B (listed last) writes long before A (listed first)
+    {"cfg": {"retries": 3, "rep": [0, 1], "pre": []}, "world": W_RESTART, "pre": ["stagein"],
+     "iters": [{"s0": ["out:1"]}, {"gap": ["out:1"]}, {"s3": ["out:1"]}, {"gap": ["out:0"]}, {"gap": ["pf:1", "out:0", "pf:0"]},
+               {}, {}, {}]},
 ]
 
 
@@ -917,11 +1163,13 @@ def c13_zero_retries_race(what, case, detail):
 def c13_output_predates_run(what, case, detail):
     """producer output exists before run(), none appears afterwards, the engine never launched and used up
     its retries before the 20 s 'waited too long' override could make it launch"""
-    if what != "stopped-without-observing-final-output" or not case["cfg"].get("preOutput"):
+    case = normalise(case)
+    ids = {p["id"] for p in prods_of(case)}
+    if what != "stopped-without-observing-final-output" or not (set(case["cfg"].get("pre", [])) & ids):
         return False
     if not isinstance(detail, dict) or detail.get("launches") != 0:
         return False
-    return not any(e == "out" for _s, e in events_in_order(case))
+    return not any(e.startswith("out:") and int(e[4:]) in ids for _s, e in events_in_order(case))
 
 
 CLASSIFIERS = {"c13_zero_retries_race": c13_zero_retries_race,
@@ -930,12 +1178,11 @@ CLASSIFIERS = {"c13_zero_retries_race": c13_zero_retries_race,
 
 # ----------------------------------------------------------------------------------------
 
-def model_cfg(cfg):
-    m = {"retries": DEFAULT_RETRIES if cfg.get("retries") is None else cfg["retries"],
-         "guardNone": True, "killOnSuicidePoll": True}
-    for k in ("dieAfter", "noProd", "alwaysNew", "preOutput"):
-        m[k] = bool(cfg.get(k))
-    return m
+def model_cfg(case):
+    cfg = case["cfg"]
+    return {"retries": DEFAULT_RETRIES if cfg.get("retries") is None else cfg["retries"],
+            "guardNone": True, "killOnSuicidePoll": True, "dieAfter": bool(cfg.get("dieAfter")),
+            "prods": prods_of(case), "pre": list(cfg.get("pre", []))}
 
 
 def model_iters(case):
@@ -943,13 +1190,15 @@ def model_iters(case):
 
 
 def run_impl(case):
-    return Drv(copy.deepcopy(case)).run()
+    return Drv(copy.deepcopy(normalise(case))).run()
 
 
 def case_fails(case, slug):
     """does the oracle fail with this slug on the case - and not in the way of a known finding"""
     try:
         out = run_impl(case)
+    except RealCodeRaised as rc:
+        return rc.slug() == slug
     except Exception:
         return False
     for w, d in oracle(case, out):
@@ -969,7 +1218,7 @@ def shrink(what, case):
 
 def _shrink(what, case):
     from harness import common
-    case = copy.deepcopy(case)
+    case = copy.deepcopy(normalise(case))
     # drop iterations from the end, then empty slots, then simplify outcomes
     its = common.shrink_list(case["iters"], lambda c: case_fails(dict(case, iters=c), what), 200)
     case["iters"] = its
@@ -984,12 +1233,18 @@ def _shrink(what, case):
                     it[s].remove(e)
             if s in it and not it[s]:
                 del it[s]
-    for k in ("dieAfter", "alwaysNew", "preOutput") + (() if "world" in case else ("noProd",)):
-        if case["cfg"].get(k):
+    if case["cfg"].get("dieAfter"):
+        trial = copy.deepcopy(case)
+        trial["cfg"]["dieAfter"] = False
+        if case_fails(trial, what):
+            case["cfg"]["dieAfter"] = False
+    for key in ("pre", "rep", "prods"):
+        # fewer components with output before run(), fewer repeating ones (composed), fewer producer entries (direct)
+        for x in list(case["cfg"].get(key, [])):
             trial = copy.deepcopy(case)
-            trial["cfg"][k] = False
+            trial["cfg"][key].remove(x)
             if case_fails(trial, what):
-                case["cfg"][k] = False
+                case["cfg"][key].remove(x)
     if "world" in case:
         for e in list(case["pre"]):
             if e.startswith("px:"):
@@ -1008,9 +1263,31 @@ def _shrink(what, case):
 
 def model_request(c):
     if "world" in c:
-        return {"op": "cscript", "cfg": model_cfg(c["cfg"]), "refs": expected_producers(c["world"]),
+        return {"op": "cscript", "cfg": model_cfg(c), "refs": expected_producers(c["world"]),
                 "pre": list(c.get("pre", [])), "iters": model_iters(c)}
-    return {"op": "script", "cfg": model_cfg(c["cfg"]), "iters": model_iters(c)}
+    return {"op": "script", "cfg": model_cfg(c), "iters": model_iters(c)}
+
+
+def producer_tags(case, out):
+    ps = prods_of(case)
+    same = {p["id"] for p in ps if p["same"]}
+    tags = ["producer-entries:%d" % len(ps), "same-stage-producers:%d" % len(same)]
+    if len({p["id"] for p in ps}) < len(ps):
+        tags.append("several-entries-for-one-producer")
+    if any(not p["same"] for p in ps):
+        tags.append("producer-entry-of-earlier-stage")
+    if any(not p["rep"] for p in ps):
+        tags.append("non-repeating-producer")
+    if case["cfg"].get("pre"):
+        tags.append("output-before-run")
+    # a poll began while some same-stage producers had output and others did not (staggered producers)
+    if out is not None and any(i.get("partial") for i in out["info"]):
+        tags.append("poll-while-only-some-same-stage-producers-have-output")
+    if out is not None and any(i.get("partial") == "last-has" for i in out["info"]):
+        tags.append("poll-while-last-listed-producer-has-output-an-earlier-one-not")
+    if same and out is not None and not out["final"]["consume"]:
+        tags.append("never-able-to-consume")
+    return tags
 
 
 def world_tags(case, out):
@@ -1043,20 +1320,30 @@ def world_tags(case, out):
 
 
 def check_cases(ctx, cases):
+    cases = [normalise(c) for c in cases]
     reqs = [model_request(c) for c in cases]
     mouts = ctx.model(reqs)
     flat_reqs = []
     for idx, case in enumerate(cases):
         try:
             out = run_impl(case)
+        except RealCodeRaised as rc:
+            # the code under test raised while being driven: a failure of this case, with the case as the
+            # concrete input (the engine / component did not do what the property needs, it fell over)
+            ctx.case(case, nontrivial=False, tags=["real-code-raised:" + rc.where,
+                                                   "mode:composed" if "world" in case else "mode:direct"])
+            ctx.fail(rc.slug(), case, {"where": rc.where, "exception": rc.exc_name, "message": rc.message,
+                                       "traceback": rc.tb})
+            continue
         except Exception as exc:  # the harness stand-ins broke: infrastructure, not a verdict
             from harness import common
             import traceback
             raise common.InfraError("real-engine driver raised on %s: %s" % (case, traceback.format_exc()[-1500:]))
         tags = ["retries:%s" % case["cfg"].get("retries"), "stopped" if out["stopped"] else "script-ended-first",
                 "cause:%s" % out["cause"]]
-        tags += ["cfg:" + k for k in ("dieAfter", "noProd", "alwaysNew", "preOutput") if case["cfg"].get(k)]
-        tags += ["slot:%s:%s" % (s, e) for s, e in set(events_in_order(case))]
+        tags += ["cfg:dieAfter"] if case["cfg"].get("dieAfter") else []
+        tags += producer_tags(case, out)
+        tags += sorted({"slot:%s:%s" % (s, e.split(":")[0]) for s, e in events_in_order(case)})
         if any(i["error"] for i in out["info"]):
             tags.append("action-raised:" + [i["error"] for i in out["info"] if i["error"]][0])
         tags.append("launches:%d" % min(len(out["execs"]), 6))
@@ -1082,6 +1369,8 @@ def check_cases(ctx, cases):
                         {"snaps": out["snaps"], "stopped": out["stopped"]})
             ctx.compare("each launch began after the final producer output? == Repeat.execLog", case,
                         [e["afterFinal"] for e in m["execs"]], [e["afterFinal"] for e in out["execs"]])
+            ctx.compare("each launch: every same-stage producer had output (harness record)? == Exec.avail", case,
+                        [e["avail"] for e in m["execs"]], [e["avail"] for e in out["execs"]])
             mc = m["cause"]
             ic = {"self": "self", "external": "external", "killDelay": "killDelay", None: None}.get(out["cause"], out["cause"])
             ctx.compare("who set the cancel event", case,
@@ -1092,10 +1381,10 @@ def check_cases(ctx, cases):
                             "called? == RepeatSub.subStep", case, m["notif"], out["sublog"])
                 ctx.compare("ComponentState.producers == one entry per data reference, in order", case,
                             [comp_ref(w, k) for k in expected_producers(w)], out["producers"])
-                flat_reqs.append(({"op": "cflat", "cfg": model_cfg(case["cfg"]), "refs": expected_producers(w),
+                flat_reqs.append(({"op": "cflat", "cfg": model_cfg(case), "refs": expected_producers(w),
                                    "ops": m["cflat"]}, m, case))
             else:
-                flat_reqs.append(({"op": "flat", "cfg": model_cfg(case["cfg"]), "ops": m["flat"]}, m, case))
+                flat_reqs.append(({"op": "flat", "cfg": model_cfg(case), "ops": m["flat"]}, m, case))
     if mouts is not None and flat_reqs:
         fouts = ctx.model([r for r, _m, _c in flat_reqs])
         for (r, m, case), f in zip(flat_reqs, fouts):
